@@ -90,7 +90,10 @@ def gen_history(rng):
         # force cancellation
         t = rng.choice(terms)
         terms.append(('-(' + t[2] + ')' if t[1] > 0 else t[2], -t[1], t[2]))
-    return {'lead_kind': kind, 'lead': lead, 'terms': [list(t) for t in terms], 'names': names}
+    # some terms are passed as Term objects; equal texts share ONE object (a caller re-using a Term), and some
+    # terms also go into a second equation built alongside (sharing the same objects)
+    flags = [{'as_obj': rng.random() < 0.35, 'eq2': rng.random() < 0.25} for _ in terms]
+    return {'lead_kind': kind, 'lead': lead, 'terms': [list(t) for t in terms], 'names': names, 'flags': flags}
 
 
 def gen_termlist(rng):
@@ -178,22 +181,47 @@ class C12(object):
         expected = [_eval(lead_src, e) for e in envs]
         exact = [True, '/' not in lead_src, '/' not in lead_src]
         self.judge(eq, h, expected, envs, exact, rec, -1)
+        eq2 = Equation('v', 'desc')
+        expected2 = [0.0 for _ in envs]
+        exact2 = [True, True, True]
+        objpool = {}
+        flags = h.get('flags') or [{'as_obj': False, 'eq2': False}] * len(h['terms'])
         for j, (text, sign, core) in enumerate(h['terms']):
+            arg = text
+            if flags[j]['as_obj']:
+                key = text.replace(' ', '')
+                if key not in objpool:
+                    try:
+                        objpool[key] = Term(text)
+                    except (LogicError, SyntaxError, NotImplementedError) as e:
+                        rec.violate('addterm_refused', {'history': h, 'at': j, 'err': repr(e)})
+                        return
+                arg = objpool[key]
+                rec.count('addterm.term_object_passed')
             try:
-                eq.AddTerm(text)
+                eq.AddTerm(arg)
+                if flags[j]['eq2']:
+                    eq2.AddTerm(arg)
             except (LogicError, SyntaxError, NotImplementedError) as e:
                 # the generator only produces supported forms: a refusal is a failure to add
                 rec.violate('addterm_refused', {'history': h, 'at': j, 'err': repr(e)})
                 return
             rec.count('addterm.calls')
             for i, e in enumerate(envs):
-                expected[i] = expected[i] + sign * _eval(core, e)
+                tv = sign * _eval(core, e)
+                expected[i] = expected[i] + tv
                 if '/' in core and i > 0:
                     exact[i] = False
+                if flags[j]['eq2']:
+                    expected2[i] = expected2[i] + tv
+                    if '/' in core and i > 0:
+                        exact2[i] = False
             if not self.judge(eq, h, expected, envs, exact, rec, j):
                 return
+            if not self.judge(eq2, h, expected2, envs, exact2, rec, j, which='second equation sharing Term objects'):
+                return
 
-    def judge(self, eq, h, expected, envs, exact, rec, j):
+    def judge(self, eq, h, expected, envs, exact, rec, j, which='main'):
         rhs = eq.RHS()
         try:
             compile(rhs, '<rhs>', 'eval')
@@ -215,7 +243,7 @@ class C12(object):
             if not ok:
                 lead = h['lead']
                 mech = 'value'
-                rec.violate('value_mismatch', {'history': h, 'after_term': j, 'rhs': rhs, 'valuation': e,
+                rec.violate('value_mismatch', {'equation': which, 'history': h, 'after_term': j, 'rhs': rhs, 'valuation': e,
                                                'expected': exp, 'got': got}, mechanism=mech)
                 return False
         rec.count('addterm.post_evaluated')
